@@ -329,7 +329,7 @@ def check_cases(draw):
     params = []
     for i in range(n):
         d = draw(st.sampled_from(DIMS + [None, "dimensionless"]))
-        form = draw(st.sampled_from(["dimstr", "unit", "container"]))
+        form = draw(st.sampled_from(["dimstr", "unit", "container", "dimexpr"]))
         ad = draw(st.sampled_from(DIMS + ["number"]))
         same = draw(st.booleans())
         p = {"dim": d, "form": form, "has_default": i >= first_default}
@@ -350,6 +350,18 @@ def check_cases(draw):
 
 
 DIMNAME = {"L": "[length]", "T": "[time]", "M": "[mass]"}
+DIMEXPR = {"L": ["[area] / [length]", "[energy] / [force]", "[velocity] * [time]", "[volume] / [area]", "[force] / [pressure] / [length]"],
+           "T": ["[length] / [velocity]", "1 / [frequency]", "[momentum] / [force]", "[energy] / [power]", "[velocity] / [acceleration]"],
+           "M": ["[force] / [acceleration]", "[density] * [volume]", "[pressure] * [area] / [acceleration]", "[energy] / [velocity] ** 2", "[momentum] / [velocity]"]}
+
+
+def _dimexpr_selfcheck():
+    from ..oracle.defreader import parse_expr
+
+    R = env.R()
+    for k, alts in DIMEXPR.items():
+        for a in alts:
+            assert R.dim_of_dimexpr(parse_expr(a)) == {DIMNAME[k]: 1}, (k, a, R.dim_of_dimexpr(parse_expr(a)))
 
 
 def case_check(case, col=None):
@@ -376,6 +388,10 @@ def case_check(case, col=None):
             specs.append("" if p["form"] != "container" else ureg.UnitsContainer({}))
         elif p["form"] == "dimstr":
             specs.append(DIMNAME[p["dim"]])
+        elif p["form"] == "dimexpr":
+            # the same dimension written through derived dimension names (nested ones, with exponents other than 1)
+            alts = DIMEXPR[p["dim"]]
+            specs.append(alts[(len(params) + len(specs)) % len(alts)])
         elif p["form"] == "unit":
             specs.append(POOL[p["dim"]][0])
         else:
@@ -416,6 +432,7 @@ def case_check(case, col=None):
 
 
 def run_check(task, tier, seed, col):
+    _dimexpr_selfcheck()
     hyp_search(col, check_cases(), lambda c: case_check(c, col), max_examples=400 if tier == "quick" else 8000, seed=seed * 269 + task["shard"])
 
 
